@@ -11,7 +11,7 @@
    submdspan_extents (index / full / pair slices) -- span (first/last/subspan, algebra, as_bytes) --
    necessity of the hypotheses and totality for wide unsigned index types -- non-vacuity. *)
 From Tetl Require Import Lib.Base C19.Slices C19.Model C19.Spec C19.ProofsArith C19.ProofsExt C19.ProofsSpec
-  C19.ProofsLayout C19.ProofsMore C19.ProofsSpan C19.ProofsEnum C19.ProofsTop C19.ProofsSub C19.ProofsBuf C19.ProofsSpan2 C19.ProofsCanon C19.ProofsReq.
+  C19.ProofsLayout C19.ProofsMore C19.ProofsSpan C19.ProofsEnum C19.ProofsTop C19.ProofsSub C19.ProofsBuf C19.ProofsSpan2 C19.ProofsCanon C19.ProofsReq C19.ProofsConv.
 From Coq Require Import Permutation.
 Local Open Scope Z_scope.
 
@@ -89,6 +89,27 @@ Theorem C19_extents_convert_std : forall t p t' e', wf_ity t -> rank e' = length
   extents_list t (ext_convert t p t' e') = extents_list t' e'.
 Proof. exact ctor_convert_std. Qed.
 Print Assumptions C19_extents_convert_std.
+
+(* the explicit-specifier of the converting constructor ([conv_implicit] = the conversion is implicit; inherited by the
+   same-layout mapping conversions, the conversions to layout_stride (fix 9041fd5) and the mdspan conversion): whenever
+   the language performs the conversion silently -- and the requires-clause (compatible static extents) and the
+   Mandates (static extents representable) hold -- the destination has exactly the extents of the source; and where
+   the specifier says `explicit` an admissible source object can indeed be changed by the conversion *)
+Theorem C19_implicit_conversion_lossless : forall t p t' e', wf_ity t -> wf_ity t' ->
+  compatible p (pat e') -> statics_representable t' (pat e') ->
+  conv_implicit t p t' (pat e') = true ->
+  Forall (representable t') (extents_list t' e') ->
+  extents_list t (ext_convert t p t' e') = extents_list t' e'.
+Proof. exact implicit_conversion_lossless. Qed.
+Print Assumptions C19_implicit_conversion_lossless.
+
+Theorem C19_explicit_conversion_can_lose :
+  (conv_implicit i8 [None] u64 [None] = false
+   /\ extents_list i8 (ext_convert i8 [None] u64 (ext_from_pack u64 [None] [300])) = [44])
+  /\ (conv_implicit i32 [Some 3] i32 [None] = false
+      /\ extents_list i32 (ext_convert i32 [Some 3] i32 (ext_from_pack i32 [None] [5])) = [3]).
+Proof. exact explicit_conversion_can_lose. Qed.
+Print Assumptions C19_explicit_conversion_can_lose.
 
 (* every constructor leaves exactly rank_dynamic values of the index type in the dynamic array *)
 Theorem C19_extents_wf : forall t p vals t' e', wf_ity t ->
